@@ -781,6 +781,27 @@ theorem tuple_pair_equiv :
   ⟨SameMeaning.tup .pep585 .call (SameMeaning.scalar .builtin .cls .int) (SameMeaning.scalar .builtin .cls .str),
    rfl, rfl, rfl, rfl, rfl, rfl, rfl, rfl, rfl, rfl, rfl, rfl, rfl, rfl⟩
 
+/-- The documented three-element example "c is a tuple of 3: integer, string, float: `c = Tuple[Integer, String, Float]`"
+    in its four spellings (`tuple[int, str, float]`, `typing.Tuple[int, str, float]`, `Tuple[Integer, String, Float]`,
+    `Tuple(items=[Integer, String, Float])`), by annotation or assignment: the same positional tuple field. -/
+theorem tuple_triple_equiv :
+    let d : FieldDecl := .tuplePos [.integer {}, .string none none none, .float {}] false
+    SameMeaning (.tri585 (.builtin .int) (.builtin .str) (.builtin .float)) (.triCall fInt fStr (.fcls .float))
+    ∧ fieldSupported noRe tm true (annF (.tri585 (.builtin .int) (.builtin .str) (.builtin .float))) = true
+    ∧ fieldSupported noRe tm true (annF (.triTyping (.builtin .int) (.builtin .str) (.builtin .float))) = true
+    ∧ fieldSupported noRe tm false { name := "a", mode := .assign, ty := .triSub fInt fStr (.fcls .float) } = true
+    ∧ fieldSupported noRe tm false { name := "a", mode := .assign, ty := .triCall fInt (.finst .str) (.fcls .float) } = true
+    ∧ elabField noRe tm true (annF (.tri585 (.builtin .int) (.builtin .str) (.builtin .float))) = .ok (.field d true none)
+    ∧ elabField noRe tm true (annF (.triTyping (.builtin .int) (.builtin .str) (.builtin .float))) = .ok (.field d true none)
+    ∧ elabField noRe tm false { name := "a", mode := .assign, ty := .triSub fInt fStr (.fcls .float) } = .ok (.field d true none)
+    ∧ elabField noRe tm false { name := "a", mode := .assign, ty := .triCall fInt (.finst .str) (.fcls .float) }
+        = .ok (.field d true none)
+    ∧ validate noRe d (.tuple [.int 1, .str "a", .float ⟨1, 2⟩]) = .ok (.tuple [.int 1, .str "a", .float ⟨1, 2⟩])
+    ∧ validate noRe d (.tuple [.int 1, .str "a"]) = .error .valueErr :=
+  ⟨SameMeaning.tri .pep585 .call (SameMeaning.scalar .builtin .cls .int) (SameMeaning.scalar .builtin .cls .str)
+      (SameMeaning.scalar .builtin .cls .float),
+   rfl, rfl, rfl, rfl, rfl, rfl, rfl, rfl, rfl, rfl⟩
+
 /-- former finding `definition-error:tuple-items-structure-class` (fixed in typedpy cdab473) — `Tuple(items=Owner)` and
     `Tuple(items=[Integer, Owner])` used to raise TypeError (Tuple.__init__ converted Field classes and instances only);
     they now declare the same field as `Tuple[Owner]`, `tuple[Owner]`, `Tuple[Integer, Owner]`, inside the proved region. -/
